@@ -72,7 +72,7 @@ class _Desugar(ast.NodeTransformer):
         decos = [ast.unparse(d.func if isinstance(d, ast.Call) else d).split('.')[-1] for d in node.decorator_list]
         if not ('NamedTuple' in bases and len(bases) == 1 and not decos) and not (decos == ['dataclass'] and not bases):
             return None
-        fields, defaults = [], []
+        fields, defaults, methods = [], [], []
         for st in node.body:
             if isinstance(st, ast.Expr) and isinstance(st.value, ast.Constant) and isinstance(st.value.value, str):
                 continue
@@ -85,6 +85,10 @@ class _Desugar(ast.NodeTransformer):
                 continue
             if isinstance(st, ast.Pass):
                 continue
+            if isinstance(st, ast.FunctionDef) and not st.decorator_list and st.args.args and not st.name.startswith('__init') \
+                    and st.name not in ('__new__', '__post_init__'):
+                methods.append(st)
+                continue
             return None
         if not fields:
             return None
@@ -95,7 +99,27 @@ class _Desugar(ast.NodeTransformer):
         ast.copy_location(new, node)
         ast.fix_missing_locations(new)
         self._note('record classes as namedtuple')
-        return new
+        out = [new]
+        # methods of the record: R.m = lambda self: <expr> for a one-expression body (the form the code base uses for its records),
+        # otherwise a module function bound to the attribute
+        for m in methods:
+            body = [x for x in m.body if not (isinstance(x, ast.Expr) and isinstance(x.value, ast.Constant))]
+            tgt = ast.Attribute(value=ast.Name(id=node.name, ctx=ast.Load()), attr=m.name, ctx=ast.Store())
+            if len(body) == 1 and isinstance(body[0], ast.Return) and body[0].value is not None:
+                a = copy.deepcopy(m.args)
+                for x in a.args + a.kwonlyargs + a.posonlyargs:
+                    x.annotation = None
+                val = ast.Lambda(args=a, body=body[0].value)
+                st = ast.Assign(targets=[tgt], value=val, type_comment=None)
+                out.append(ast.fix_missing_locations(ast.copy_location(st, m)))
+            else:
+                fn = copy.copy(m)
+                fn.name = '_%s_%s' % (node.name, m.name.strip('_'))
+                fn.body = self._block(m.body)
+                out.append(fn)
+                st = ast.Assign(targets=[tgt], value=ast.Name(id=fn.name, ctx=ast.Load()), type_comment=None)
+                out.append(ast.fix_missing_locations(ast.copy_location(st, m)))
+        return out
 
     # ---- annotated assignments inside functions
     def visit_AnnAssign(self, node):
@@ -123,6 +147,30 @@ class _Desugar(ast.NodeTransformer):
             ast.fix_missing_locations(new)
             self._note('contextlib.suppress')
             return new
+        return node
+
+    # ---- L.extend(f(x) for x in xs)  ->  for x in xs: L.append(f(x))
+    def visit_Expr(self, node):
+        c = node.value
+        if (isinstance(c, ast.Call) and isinstance(c.func, ast.Attribute) and c.func.attr == 'extend' and len(c.args) == 1 and not c.keywords
+                and isinstance(c.args[0], (ast.GeneratorExp, ast.ListComp)) and len(c.args[0].generators) == 1
+                and not c.args[0].generators[0].is_async and _simple(c.func.value)):
+            g = c.args[0].generators[0]
+            names = {y.id for y in ast.walk(g.target) if isinstance(y, ast.Name)}
+            if not any(isinstance(y, ast.Name) and y.id in names for y in ast.walk(c.func.value)):
+                app = ast.Expr(value=ast.Call(func=ast.Attribute(value=c.func.value, attr='append', ctx=ast.Load()), args=[c.args[0].elt], keywords=[]))
+                body = [app]
+                for cond in reversed(g.ifs):
+                    body = [ast.If(test=cond, body=body, orelse=[])]
+                tgt = copy.deepcopy(g.target)
+                for y in ast.walk(tgt):
+                    if isinstance(y, (ast.Name, ast.Tuple, ast.List)):
+                        y.ctx = ast.Store()
+                loop = ast.For(target=tgt, iter=g.iter, body=body, orelse=[], type_comment=None)
+                ast.copy_location(loop, node)
+                ast.fix_missing_locations(loop)
+                self._note('extend(generator) as loop')
+                return loop
         return node
 
     # ---- walrus at the head of an if test
@@ -168,30 +216,58 @@ class _Desugar(ast.NodeTransformer):
             subj = ast.Name(id=tmp, ctx=ast.Load())
 
         def test_of(p):
-            """(test expression or None for 'always', bindings) - raises ValueError for patterns that are not plain values"""
+            """(test expression or None for 'always', bindings) - raises ValueError for patterns outside the supported forms"""
             if isinstance(p, ast.MatchValue):
                 return ast.Compare(left=copy.deepcopy(subj), ops=[ast.Eq()], comparators=[p.value]), []
             if isinstance(p, ast.MatchSingleton):
                 return ast.Compare(left=copy.deepcopy(subj), ops=[ast.Is()], comparators=[ast.Constant(value=p.value)]), []
             if isinstance(p, ast.MatchOr):
-                vals = []
+                if all(isinstance(q, ast.MatchValue) for q in p.patterns):
+                    return ast.Compare(left=copy.deepcopy(subj), ops=[ast.In()], comparators=[ast.Tuple(elts=[q.value for q in p.patterns], ctx=ast.Load())]), []
+                tests = []
                 for q in p.patterns:
-                    if not isinstance(q, ast.MatchValue):
+                    t, b = test_of(q)
+                    if b or t is None:
                         raise ValueError
-                    vals.append(q.value)
-                return ast.Compare(left=copy.deepcopy(subj), ops=[ast.In()], comparators=[ast.Tuple(elts=vals, ctx=ast.Load())]), []
+                    tests.append(t)
+                return ast.BoolOp(op=ast.Or(), values=tests), []
             if isinstance(p, ast.MatchAs) and p.pattern is None:
                 return None, ([p.name] if p.name else [])
+            if isinstance(p, ast.MatchAs):
+                t, b = test_of(p.pattern)
+                return t, b + [p.name]
+            if isinstance(p, ast.MatchClass) and not p.patterns:
+                # C() / C(attr=value, ...): an instance test and equalities on the named attributes
+                t = ast.Call(func=ast.Name(id='isinstance', ctx=ast.Load()), args=[copy.deepcopy(subj), p.cls], keywords=[])
+                extra = []
+                for a, q in zip(p.kwd_attrs, p.kwd_patterns):
+                    if isinstance(q, ast.MatchValue):
+                        extra.append(ast.Compare(left=ast.Attribute(value=copy.deepcopy(subj), attr=a, ctx=ast.Load()), ops=[ast.Eq()], comparators=[q.value]))
+                    elif isinstance(q, ast.MatchSingleton):
+                        extra.append(ast.Compare(left=ast.Attribute(value=copy.deepcopy(subj), attr=a, ctx=ast.Load()), ops=[ast.Is()], comparators=[ast.Constant(value=q.value)]))
+                    else:
+                        raise ValueError
+                return (ast.BoolOp(op=ast.And(), values=[t] + extra) if extra else t), []
             raise ValueError
+
+        def with_subject(e, names):
+            """the guard with the names the pattern binds read as the subject (the binding happens before the guard runs)"""
+            class R(ast.NodeTransformer):
+                def visit_Name(s, n):
+                    if n.id in names and isinstance(n.ctx, ast.Load):
+                        return ast.copy_location(copy.deepcopy(subj), n)
+                    return n
+            return R().visit(copy.deepcopy(e))
         try:
             arms = []
             for c in node.cases:
                 t, binds = test_of(c.pattern)
                 body = [ast.Assign(targets=[ast.Name(id=b, ctx=ast.Store())], value=copy.deepcopy(subj), type_comment=None) for b in binds] + c.body
                 if c.guard is not None:
-                    if binds:
+                    g = with_subject(c.guard, set(binds)) if binds else c.guard
+                    if any(isinstance(x, ast.NamedExpr) for x in ast.walk(g)):
                         raise ValueError
-                    t = c.guard if t is None else ast.BoolOp(op=ast.And(), values=[t, c.guard])
+                    t = g if t is None else ast.BoolOp(op=ast.And(), values=[t, g])
                 arms.append((t, body))
         except ValueError:
             return node
@@ -209,8 +285,192 @@ class _Desugar(ast.NodeTransformer):
         return out
 
 
+_STRUCT = {'pack', 'unpack', 'unpack_from', 'pack_into', 'calcsize', 'iter_unpack'}
+
+
+def _pure(e):
+    if isinstance(e, (ast.Name, ast.Constant)):
+        return True
+    if isinstance(e, ast.Attribute):
+        return _pure(e.value)
+    if isinstance(e, ast.Call) and isinstance(e.func, ast.Name) and e.func.id == 'len' and len(e.args) == 1 and not e.keywords:
+        return _pure(e.args[0])
+    if isinstance(e, ast.BinOp):
+        return _pure(e.left) and _pure(e.right)
+    return False
+
+
+class _StructFormats(ast.NodeTransformer):
+    """the format argument of a struct call, written as an f-string or with str.format, in one form:
+    'text{0}..{1}'.format(a, b) with explicit positions, one argument per distinct (side-effect free) expression"""
+
+    def __init__(self, report):
+        self.report = report
+
+    def visit_Call(self, node):
+        self.generic_visit(node)
+        f = node.func
+        name = f.id if isinstance(f, ast.Name) else f.attr if isinstance(f, ast.Attribute) and isinstance(f.value, ast.Name) and f.value.id == 'struct' else None
+        if name not in _STRUCT or not node.args:
+            return node
+        new = self._canon(node.args[0])
+        if new is not None:
+            node.args[0] = ast.copy_location(new, node.args[0])
+            ast.fix_missing_locations(node.args[0])
+        return node
+
+    def _canon(self, e):
+        import string
+        segs = []          # (literal, expr or None)
+        if isinstance(e, ast.JoinedStr):
+            for v in e.values:
+                if isinstance(v, ast.Constant) and isinstance(v.value, str):
+                    segs.append((v.value, None))
+                elif isinstance(v, ast.FormattedValue) and v.conversion == -1 and v.format_spec is None:
+                    segs.append(('', v.value))
+                else:
+                    return None
+            what = 'f-string struct formats'
+        elif (isinstance(e, ast.Call) and isinstance(e.func, ast.Attribute) and e.func.attr == 'format' and not e.keywords
+              and isinstance(e.func.value, ast.Constant) and isinstance(e.func.value.value, str)
+              and not any(isinstance(a, ast.Starred) for a in e.args)):
+            auto = 0
+            try:
+                parsed = list(string.Formatter().parse(e.func.value.value))
+            except ValueError:
+                return None
+            for lit, field, spec, conv in parsed:
+                if lit:
+                    segs.append((lit, None))
+                if field is None:
+                    continue
+                if spec or conv:
+                    return None
+                if field == '':
+                    idx = auto
+                    auto += 1
+                elif field.isdigit():
+                    idx = int(field)
+                else:
+                    return None
+                if idx >= len(e.args):
+                    return None
+                segs.append(('', e.args[idx]))
+            what = None
+        else:
+            return None
+        args, text = [], ''
+        for lit, ex in segs:
+            if ex is None:
+                text += lit.replace('{', '{{').replace('}', '}}')
+                continue
+            k = None
+            if _pure(ex):
+                d = ast.dump(ex)
+                for i, a in enumerate(args):
+                    if ast.dump(a) == d:
+                        k = i
+            if k is None:
+                args.append(ex)
+                k = len(args) - 1
+            text += '{%d}' % k
+        if what:
+            self.report[what] = self.report.get(what, 0) + 1
+        if not args:
+            return ast.Constant(value=text.replace('{{', '{').replace('}}', '}'))
+        return ast.Call(func=ast.Attribute(value=ast.Constant(value=text), attr='format', ctx=ast.Load()), args=args, keywords=[])
+
+
+class _IntBytes(ast.NodeTransformer):
+    """int.to_bytes / int.from_bytes with the defaults Python 3.11 added written out: n.to_bytes(k) is n.to_bytes(k, 'big'),
+    int.from_bytes(b) is int.from_bytes(b, 'big'), and i.to_bytes() - for a local that only ever holds integers (a counter) - is
+    i.to_bytes(1, 'big').  (The code base's own to_bytes() methods take no argument, so only a receiver known to be an integer is
+    touched in the no-argument form.)"""
+
+    def __init__(self, report):
+        self.report = report
+        self.ints = [set()]
+
+    def visit_FunctionDef(self, node):
+        cand, bad = set(), set()
+        for x in ast.walk(node):
+            if isinstance(x, ast.Assign):
+                for t in x.targets:
+                    for y in ast.walk(t):
+                        if isinstance(y, ast.Name) and isinstance(y.ctx, ast.Store):
+                            if t is y and isinstance(x.value, ast.Constant) and type(x.value.value) is int:
+                                cand.add(y.id)
+                            else:
+                                bad.add(y.id)
+            elif isinstance(x, ast.AugAssign) and isinstance(x.target, ast.Name):
+                if not (isinstance(x.value, ast.Constant) and type(x.value.value) is int and isinstance(x.op, (ast.Add, ast.Sub, ast.Mult))):
+                    bad.add(x.target.id)
+            elif isinstance(x, (ast.For, ast.comprehension)):
+                rng = isinstance(x.iter, ast.Call) and isinstance(x.iter.func, ast.Name) and x.iter.func.id == 'range'
+                for y in ast.walk(x.target):
+                    if isinstance(y, ast.Name):
+                        (cand if rng and y is x.target else bad).add(y.id)
+            elif isinstance(x, (ast.NamedExpr, ast.AnnAssign)) and isinstance(x.target, ast.Name):
+                bad.add(x.target.id)
+            elif isinstance(x, ast.withitem) and x.optional_vars is not None or isinstance(x, ast.ExceptHandler) and x.name:
+                for y in ast.walk(x.optional_vars) if isinstance(x, ast.withitem) else []:
+                    if isinstance(y, ast.Name):
+                        bad.add(y.id)
+                if isinstance(x, ast.ExceptHandler):
+                    bad.add(x.name)
+            elif isinstance(x, (ast.Global, ast.Nonlocal)):
+                bad.update(x.names)
+        for a in node.args.args + node.args.kwonlyargs + node.args.posonlyargs + [z for z in (node.args.vararg, node.args.kwarg) if z]:
+            bad.add(a.arg)
+        self.ints.append(cand - bad)
+        self.generic_visit(node)
+        self.ints.pop()
+        return node
+
+    def visit_Call(self, node):
+        self.generic_visit(node)
+        f = node.func
+        if not isinstance(f, ast.Attribute) or any(isinstance(a, ast.Starred) for a in node.args):
+            return node
+        kws = {k.arg: k.value for k in node.keywords}
+        if f.attr == 'to_bytes' and None not in kws and set(kws) <= {'length', 'byteorder', 'signed'}:
+            args = list(node.args)
+            if 'length' in kws and not args:
+                args.append(kws.pop('length'))
+            if 'byteorder' in kws and len(args) == 1:
+                args.append(kws.pop('byteorder'))
+            if len(args) == 0 and isinstance(f.value, ast.Name) and f.value.id in self.ints[-1] and not kws:
+                args = [ast.Constant(value=1), ast.Constant(value='big')]
+            elif len(args) == 1 and 'byteorder' not in kws:
+                args.append(ast.Constant(value='big'))
+            else:
+                return node
+            if len(args) != len(node.args) or len(kws) != len(node.keywords):
+                node.args = args
+                node.keywords = [k for k in node.keywords if k.arg in kws]
+                ast.fix_missing_locations(node)
+                self.report['int.to_bytes defaults'] = self.report.get('int.to_bytes defaults', 0) + 1
+        elif f.attr == 'from_bytes' and isinstance(f.value, ast.Name) and f.value.id == 'int' and set(kws) <= {'bytes', 'byteorder', 'signed'}:
+            args = list(node.args)
+            if 'bytes' in kws and not args:
+                args.append(kws.pop('bytes'))
+            if 'byteorder' in kws and len(args) == 1:
+                args.append(kws.pop('byteorder'))
+            elif len(args) == 1:
+                args.append(ast.Constant(value='big'))
+            else:
+                return node
+            node.args = args
+            node.keywords = [k for k in node.keywords if k.arg in kws]
+            ast.fix_missing_locations(node)
+            self.report['int.from_bytes defaults'] = self.report.get('int.from_bytes defaults', 0) + 1
+        return node
+
+
 def desugar(tree):
     d = _Desugar()
     d.visit(tree)
+    _StructFormats(d.report).visit(tree)
+    _IntBytes(d.report).visit(tree)
     ast.fix_missing_locations(tree)
     return d.report
